@@ -56,6 +56,115 @@ def check_exact_size_hints(ctx, prog):
     return n
 
 
+def check_loop_counters(ctx, prog):
+    """L2: the numeric attributes of the loop object are views of one counter and one length.  Their expressions are
+    extracted symbolically from MIR (through the `map` closures over the optional length) and must stand in the documented
+    relations: index = index0 + 1, revindex0 = revindex - 1 (saturating), depth = depth0 + 1, first = (index0 == 0).  An
+    off-by-one in one of a pair is a disagreement between siblings, whatever the sequence is."""
+    from .. import flow
+    from ..facts import op_place
+    host = None
+    for k, f in prog.fns.items():
+        if f.crate == "minijinja" and f.kind != "closure" and k.endswith("::get_value_by_str") and "loop_object" in f.loc.f:
+            host = f
+    if host is None:
+        return 0
+    closures = prog.closures_of(host.path)
+
+    def sym(g, op, depth=0):
+        if depth > 8:
+            return "?"
+        if "c" in op:
+            c = op["c"]
+            return str(c.get("int", "?"))
+        outs = set()
+        for o in flow.origins(g, op):
+            if o.kind == "const":
+                outs.add(str(o.const.get("int", "?")))
+            elif o.kind == "bin":
+                a, b = sym(g, o.rv["a"], depth + 1), sym(g, o.rv["b"], depth + 1)
+                opn = {"Add": "+", "AddWithOverflow": "+", "Sub": "-", "SubWithOverflow": "-", "Eq": "==", "Ne": "!="}.get(o.rv["op"], o.rv["op"])
+                outs.add("(%s%s%s)" % (a, opn, b))
+            elif o.kind == "call":
+                nm = o.call.name.rsplit("::", 1)[-1]
+                if nm == "load":
+                    outs.add("idx")
+                elif nm in ("saturating_sub", "wrapping_sub", "checked_sub"):
+                    outs.add("ssub(%s,%s)" % (sym(g, o.call.args[0], depth + 1), sym(g, o.call.args[1], depth + 1)))
+                elif nm in ("from", "into", "clone", "deref"):
+                    outs.add(sym(g, o.call.args[0], depth + 1))
+                else:
+                    outs.add("call:" + nm)
+            elif o.kind == "arg":
+                if g.kind == "closure" and o.arg == 2:
+                    outs.add("len")
+                elif g.kind == "closure" and o.arg == 1 and o.proj and o.proj[0].isdigit():
+                    caps = flow.closure_captures(prog, g)
+                    h = prog.fns.get(g.parent)
+                    i = int(o.proj[0])
+                    if h is not None and i < len(caps):
+                        for co in caps[i]:
+                            if co.kind == "call" and co.call.name.rsplit("::", 1)[-1] == "load":
+                                outs.add("idx")
+                            elif co.kind == "arg":
+                                outs.add("self." + ".".join(x for x in co.proj if not x.startswith("as ")))
+                            else:
+                                outs.add(co.kind)
+                    else:
+                        outs.add("cap")
+                else:
+                    outs.add("self." + ".".join(x for x in o.proj if not x.startswith("as ")))
+            else:
+                outs.add(o.kind)
+        return "|".join(sorted(outs)) if outs else "?"
+
+    def attr_at(bb):
+        names = set()
+        for gf in flow.guard_facts(prog, host, bb):
+            if gf[0] == "call" and gf[2] is True and gf[1].endswith("::eq"):
+                for a in gf[3].args:
+                    for o in (flow.origins(host, a) if "c" not in a else [flow.Origin("const", const=a["c"])]):
+                        if o.kind == "const":
+                            s_ = flow.const_str({"c": o.const}, host)
+                            if s_:
+                                names.add(s_)
+        return names
+
+    exprs = {}
+    for g in [host] + closures:
+        for c in g.calls():
+            if "convert::From<" not in c.name or not c.name.endswith("for minijinja::value::Value>::from") or not c.args:
+                continue
+            if g is host:
+                where = c.bb
+            else:
+                where = None
+                for bb, i, st in host.all_stmts():
+                    rv = st.get("rv")
+                    if rv and rv["k"] == "agg" and rv.get("closure") and g.path.endswith(rv["closure"].rsplit("::", 1)[-1]):
+                        where = bb
+            if where is None:
+                continue
+            for nm in attr_at(where):
+                exprs.setdefault(nm, set()).add(sym(g, c.args[0]))
+    n = 0
+
+    def rel(name, a, b, build):
+        nonlocal n
+        if a not in exprs or b not in exprs:
+            return
+        n += 1
+        want = {build(x) for x in exprs[b]}
+        ctx.ob("C03.L2.loop-counters-differ-by-one", name, exprs[a] == want,
+               "loop.%s is %s, loop.%s is %s: expected %s" % (a, sorted(exprs[a]), b, sorted(exprs[b]), sorted(want)), host.where(0))
+    rel("index=index0+1", "index", "index0", lambda x: "(%s+1)" % x)
+    rel("revindex0=revindex-1", "revindex0", "revindex", lambda x: "ssub(%s,1)" % x)
+    rel("depth=depth0+1", "depth", "depth0", lambda x: "(%s+1)" % x)
+    rel("first=(index0==0)", "first", "index0", lambda x: "(%s==0)" % x)
+    ctx.sample({"loop attribute expressions": {k: sorted(v) for k, v in sorted(exprs.items())}})
+    return n
+
+
 def run(ctx):
     ctx.explain("C03 (partial): the scoping skeleton of the core constructs, decided by the rules of C05 (frames, captures, "
                 "jumps, operand balance, restored state) and the closure-related rules of C18 (what macros enclose) run as "
@@ -71,6 +180,8 @@ def run(ctx):
     _c04.run(ctx.borrowed("C04", "C03.K:"))
     n_l = check_exact_size_hints(ctx, ctx.prog)
     ctx.floor("C03.L1 size hints with a stored upper bound", n_l, 1)
+    n_l2 = check_loop_counters(ctx, ctx.prog)
+    ctx.floor("C03.L2 relations between loop attributes", n_l2, 3)
     n_f = sum(1 for o in ctx.obligations if o[0].startswith("C03.F:"))
     n_m = sum(1 for o in ctx.obligations if o[0].startswith("C03.M:"))
     ctx.floor("C03 frame / jump / operand clauses (from C05)", n_f, 100)
